@@ -197,7 +197,15 @@ def handle_bad_run(prop, cfg, variant, seed, tier, idx, event, findings, state, 
         except Exception:
             pass
     if inv is None or not inv.get("reproduced"):
-        state["infra"].append("run %d of %s/%s ended badly but did not reproduce from its seed: %s %s" % (idx, harness, variant, r.stdout[-400:], (err or "")[-400:]))
+        msg = "run %d of %s/%s ended badly but did not reproduce from its seed: %s %s" % (idx, harness, variant, r.stdout[-400:], (err or "")[-400:])
+        # A worker that died for a reason outside the simulation (killed, binary replaced under it, host out of memory) leaves a
+        # run that replays cleanly from its seed. One or two of those are recorded and tolerated; more is an infrastructure error.
+        if event is None and inv is not None and inv.get("status") == "ok":
+            state["irreproducible_deaths"].append(msg)
+            log("WARNING worker died outside the simulation (run replays cleanly): %s" % msg[:200])
+            if len(state["irreproducible_deaths"]) <= 2:
+                return True
+        state["infra"].append(msg)
         return False
     cls, key = inv.get("class"), inv.get("key")
     k = match_known(findings, prop, cls, key)
@@ -271,7 +279,7 @@ def check_property(prop, tier, seed):
     total = cfg["quick_s"] if tier == "quick" else cfg["thorough_s"]
     total = float(os.environ.get("VERIF_TIME", total))
     state = {"summaries": [], "samples": [], "violations": [], "known": {}, "known_runs": 0, "infra": [], "hashes": set(), "inconclusive": 0,
-             "seen": set(), "dup_violation_runs": 0}
+             "seen": set(), "dup_violation_runs": 0, "irreproducible_deaths": []}
     conformance = run_conformance(variants[0]) if cfg.get("conformance") else None
     per = total / len(variants)
     for v in variants:
@@ -324,6 +332,7 @@ def check_property(prop, tier, seed):
             "components": cfg["components"],
             "known_findings_printed": known_printed, "known_finding_runs": state["known_runs"],
             "violations_found": state["violations"],
+            "irreproducible_worker_deaths": state["irreproducible_deaths"],
             "build_s": round(bt, 1),
             "kernel_model_conformance": conformance,
         },
